@@ -97,7 +97,7 @@ TEXT = {
                    "deliveries and new session record are a function of the sender's own session record). Frame + locality are the unwinding conditions of noninterference; the trace-equivalence "
                    "form itself is proved at the level of handled requests: C03_noninterference (Props/C03Trace.lean) - from servers that agree on a session, what its members are sent along a "
                    "history equals what they are sent along the history with every request that does not concern the session removed; hypotheses: no receipts (the shared queue of C19), a member "
-                   "does not ask to join another session, one member only listens (the session does not end). The scheduler in front of the handlers (per-connection queues, frames) is not in that "
+                   "does not ask to join another session by its id (it may leave by disconnecting or by creating a session), one member only listens (the session does not end). The scheduler in front of the handlers (per-connection queues, frames) is not in that "
                    "statement; the same equivalence is measured on the real server, scheduler included, by re-running histories without the outsiders. "
                    "Also measured: the frame of a session drives the connections of exactly its members (after sequential events and right after concurrent blocks), and a session created "
                    "within a concurrent block is not taken out of the registry by the end of the earlier holder of its number.",
